@@ -118,10 +118,37 @@ impl<'a> Mon<'a> {
 
 // ------------------------------------------------------------------ strings
 
-fn amplifier(rng: &mut Rng) -> String {
+/// Tap trees around the depth limit: a left or right spine that ends in a complete subtree
+/// ("crown") of height 0..3, so that 1, 2, 4 or 8 leaves sit at depth 125..=129. Real x-only
+/// keys, so that the accepted ones reach `spend_info()` through `script_pubkey()`.
+fn tap_boundary(rng: &mut Rng, world: &World) -> String {
+    let total = 125 + rng.below(5);
+    let h = rng.below(4);
+    let left = rng.coin();
+    let mut n = 0usize;
+    let mut leaf = || {
+        n += 1;
+        format!("pk({})", world.keys[n % world.keys.len()].xonly_hex)
+    };
+    fn crown(h: usize, leaf: &mut dyn FnMut() -> String) -> String {
+        if h == 0 {
+            leaf()
+        } else {
+            format!("{{{},{}}}", crown(h - 1, leaf), crown(h - 1, leaf))
+        }
+    }
+    let mut t = crown(h, &mut leaf);
+    for _ in 0..total.saturating_sub(h) {
+        t = if left { format!("{{{},{}}}", t, leaf()) } else { format!("{{{},{}}}", leaf(), t) };
+    }
+    format!("tr({},{})", world.keys[0].xonly_hex, t)
+}
+
+fn amplifier(rng: &mut Rng, world: &World) -> String {
     let n = *rng.pick(&[50usize, 200, 401, 402, 403, 404, 1000, 5000, 20_000]);
     let w = *rng.pick(&[10usize, 100, 1000, 10_000, 50_000]);
-    match rng.below(16) {
+    match rng.below(18) {
+        16 | 17 => tap_boundary(rng, world),
         0 => format!("{}pk(A)", "a:".repeat(n)),
         1 => format!("{}pk(A){}", "and_v(v:pk(B),".repeat(n), ")".repeat(n)),
         2 => format!("wsh({}pk(A){})", "or_i(0,".repeat(n), ")".repeat(n)),
@@ -337,7 +364,7 @@ fn string_case(cfg: &RunCfg, rep: &mut Report, world: &World, i: u64) {
     donors.push(world.gen_xkey(&mut rng, true, true, true).secret_text.unwrap_or_default());
     donors.push(format!("wsh(sortedmulti(2,@0/**,@1/<2;3>/*,@2/**))"));
     let s = match rng.below(10) {
-        0 => amplifier(&mut rng),
+        0 => amplifier(&mut rng, world),
         1 => rng.pick(&donors).clone(),
         _ => {
             let base = rng.pick(&donors).clone();
@@ -813,8 +840,32 @@ fn psbt_case(cfg: &RunCfg, rep: &mut Report, world: &World, i: u64) {
                 }
             }
             9 => {
-                inp.sha256_preimages.insert(bitcoin::hashes::sha256::Hash::from_byte_array(world.pre[0].sha256), { let n = *rng.pick(&[0usize, 1, 31, 33, 521]); rng.bytes(n) });
-                inp.hash160_preimages.insert(bitcoin::hashes::hash160::Hash::from_byte_array(world.pre[0].hash160), { let n = *rng.pick(&[0usize, 31, 33]); rng.bytes(n) });
+                // preimages of the wrong length under the hashes the script really uses (all four kinds)
+                let mut ids = s.inputs[k].case.pre_ids();
+                if ids.is_empty() || rng.chance(1, 4) {
+                    ids.push(0);
+                }
+                for id in ids {
+                    let pi = &world.pre[id];
+                    let which = rng.below(5);
+                    let mut len = || *rng.pick(&[0usize, 1, 20, 31, 33, 64, 521]);
+                    if which == 0 || which == 4 {
+                        let n = len();
+                        inp.sha256_preimages.insert(bitcoin::hashes::sha256::Hash::from_byte_array(pi.sha256), vec![0x5a; n]);
+                    }
+                    if which == 1 || which == 4 {
+                        let n = len();
+                        inp.hash256_preimages.insert(bitcoin::hashes::sha256d::Hash::from_byte_array(pi.hash256), vec![0x5a; n]);
+                    }
+                    if which == 2 || which == 4 {
+                        let n = len();
+                        inp.ripemd160_preimages.insert(bitcoin::hashes::ripemd160::Hash::from_byte_array(pi.ripemd160), vec![0x5a; n]);
+                    }
+                    if which == 3 || which == 4 {
+                        let n = len();
+                        inp.hash160_preimages.insert(bitcoin::hashes::hash160::Hash::from_byte_array(pi.hash160), vec![0x5a; n]);
+                    }
+                }
             }
             10 => inp.tap_internal_key = other.tap_internal_key.or(Some(world.keys[rng.below(8)].xonly)),
             11 => inp.tap_merkle_root = Some(bitcoin::taproot::TapNodeHash::from_byte_array([rng.below(256) as u8; 32])),
